@@ -219,3 +219,11 @@ Proof.
     cbn [List.length] in Hl. destruct cap as [|cap]; [lia|].
     cbn [digit_run]. rewrite Hy. f_equal. apply IH; [exact Ha|lia|exact Hr].
 Qed.
+
+(* decimal round trip, collected *)
+Theorem decimal_roundtrip n :
+  py_int (str_of_N n) = Ok n /\ isdigit_str (str_of_N n) = true /\
+  forallb adigit (str_of_N n) = true /\ str_of_N n <> [].
+Proof.
+  repeat split; [apply py_int_str_of_N|apply isdigit_str_of_N|apply str_of_N_adigit|apply str_of_N_nonnil].
+Qed.
